@@ -1521,6 +1521,11 @@ class Exec:
         """Execute a function body on path p (pushes a frame). yields (path, Ret | Raised)."""
         mi = front.load(module)
         fn = mi.func(qualname)
+        for d in fn.decorator_list:
+            # a decorator replaces the function by whatever it returns (a cache, a wrapper ...): running the bare body would verify
+            # something other than what callers execute
+            if not (isinstance(d, ast.Name) and d.id == 'staticmethod'):
+                raise EngineError(f'decorated function {module}.{qualname} (@{ast.unparse(d)}) is not modelled')
         self.ctx.note_function(module, qualname)
         cls = qualname.split('.')[0] if '.' in qualname else None
         self.bind_args(p, fn, args, kwargs or {}, module, qualname, cls)
